@@ -44,6 +44,8 @@ static struct {
     int open, opens, closes, started, starts, stops, frames, frames_this_run, calls_after_close, viol;
     int acq;            /* acquisition counter = number of starts */
     int fail_frame_at;  /* get_frame call index (within a run) that fails, -1 none */
+    int empty_at;       /* get_frame CALL index (within a run) that returns no frame (*nbytes = 0: a time-out), -1 none */
+    int calls_this_run, empties;
     int triggers;
 } CAM[NCAM];
 static struct {
@@ -96,6 +98,7 @@ mc_start(struct Camera* c)
     ++CAM[id].starts;
     ++CAM[id].acq;
     CAM[id].frames_this_run = 0;
+    CAM[id].calls_this_run = 0;
     return Device_Ok;
 }
 static void (*mock_cam_stop_hook)(int cam);
@@ -124,6 +127,7 @@ mc_get_frame(struct Camera* c, void* im, size_t* nbytes, struct ImageInfo* info)
     if (!CAM[id].started) ++CAM[id].viol;
     int k = CAM[id].frames_this_run;
     if (k == CAM[id].fail_frame_at) return Device_Err;
+    if (CAM[id].calls_this_run++ == CAM[id].empty_at) { *nbytes = 0; ++CAM[id].empties; return Device_Ok; } /* no frame this time */
     uint8_t* px = (uint8_t*)im;
     for (int i = 0; i < PX; ++i) px[i] = TAG(id, CAM[id].acq, k);
     *nbytes = PX;
@@ -303,7 +307,7 @@ mock_reset(void)
 {
     memset(CAM, 0, sizeof CAM);
     memset(STO, 0, sizeof STO);
-    for (int i = 0; i < NCAM; ++i) CAM[i].fail_frame_at = -1;
+    for (int i = 0; i < NCAM; ++i) CAM[i].fail_frame_at = CAM[i].empty_at = -1;
     for (int i = 0; i < NSTO; ++i) { STO[i].fail_append_at = -1; STO[i].expect_cam = i; }
 }
 static int
